@@ -1,5 +1,6 @@
 #!/bin/bash
 # usage: seed_confirm.sh <PROP> <name> <worktree>   -- confirm a seeded change and store it under /verif/seeded/<PROP>_<name>/
+# (no git stash: the stash is shared between worktrees)
 set -u
 P=$1; NAME=$2; WT=$3
 D=/verif/seeded/${P}_${NAME}
@@ -8,10 +9,10 @@ cd $WT || exit 2
 git diff -- mindsdb_sql sly > $D/patch.diff
 cp demo.py $D/demo.py
 T=$( /venv/bin/python -m pytest -q -p no:cacheprovider 2>&1 | tail -1 )
-PYTHONPATH=$WT /venv/bin/python demo.py > /tmp/demo_with.log 2>&1; RW=$?
-git stash -q
-PYTHONPATH=$WT /venv/bin/python demo.py > /tmp/demo_without.log 2>&1; RO=$?
-git stash pop -q
+PYTHONPATH=$WT /venv/bin/python demo.py > /tmp/demo_with_$P.log 2>&1; RW=$?
+git apply -R $D/patch.diff
+PYTHONPATH=$WT /venv/bin/python demo.py > /tmp/demo_without_$P.log 2>&1; RO=$?
+git apply $D/patch.diff
 echo "pytest with change: $T"
 echo "demo with change rc=$RW ; without change rc=$RO"
 echo "{\"pytest_with_change\": \"$T\", \"demo_rc_with_change\": $RW, \"demo_rc_without_change\": $RO}" > $D/confirm.json
